@@ -86,6 +86,12 @@ def run_impl(c):
         return vf.try_impl(lambda: read_dtm(t.start_time))
     if k == "irregular":
         return vf.try_impl(lambda: (Timing.create_with_irregular_interval([mk_dtm(c["fam"], v * UNIT[c["fam"]] + c.get("base", 0)) for v in c["l"]]), 0)[1])
+    if k == "irregular_bad":
+        import datetime as _dt
+        bad = {"int": lambda v: v, "none": lambda v: None, "str": lambda v: "abc"[v % 3], "float": lambda v: float(v),
+               "date": lambda v: _dt.date(2020, 1, 1 + v), "td": lambda v: _dt.timedelta(seconds=v)}[c["bad"]]
+        seq = [bad(v) if j in c["at"] else mk_dtm(c["fam"], v * UNIT[c["fam"]]) for j, v in enumerate(c["l"])]
+        return vf.try_impl(lambda: (Timing.create_with_irregular_interval(seq if c.get("seq", "list") == "list" else tuple(seq)), 0)[1])
     raise AssertionError(k)
 
 
@@ -108,12 +114,18 @@ def to_coq(c, r):
     if k == "irregular":
         out = "(Ok tt)" if "ok" in r else "(Raise %s)" % r["exc"]
         return "Irregular %s %s" % (vf.listc(c["l"]), out)
+    if k == "irregular_bad":
+        return "IrregularBad %s" % ("(Ok tt)" if "ok" in r else "(Raise %s)" % r["exc"])
     raise AssertionError(k)
 
 
 def sig(c, r):
     k = c["k"]
     outcome = r.get("exc", "ok") if isinstance(r, dict) else "ok"
+    if k == "irregular_bad":
+        l = c["l"]
+        mono = l == sorted(l) or l == sorted(l, reverse=True)
+        return "irrbad|%s|%s|n%d|at%d|%s|%s" % (c["fam"], c["bad"], min(len(l), 4), min(c["at"]) if c["at"] else -1, "mono" if mono else "zig", outcome), True
     if k == "irregular":
         l = c["l"]
         shape = "len%d" % min(len(l), 6) + ("p" if any(a == b for a, b in zip(l, l[1:])) else "") + ("u" if any(a < b for a, b in zip(l, l[1:])) else "") + ("d" if any(a > b for a, b in zip(l, l[1:])) else "")
@@ -195,6 +207,28 @@ def gen_cases(rng, tier):
             else:
                 l = [rng.randrange(4) for _ in range(ln)]
             cases.append({"k": "irregular", "fam": fam, "l": l, "base": rng.choice([0, 3502915200 * UNIT[fam]])})
+    # sequences holding non-datetime elements, in monotonic and in zig-zag order: TypeError either way
+    for _ in range(250 if not big else 4000):
+        ln = rng.randrange(1, 7)
+        l = [rng.randrange(4) for _ in range(ln)] if rng.random() < 0.6 else sorted(rng.randrange(5) for _ in range(ln))
+        bad = rng.choice(["int", "none", "str", "float", "date", "td"])
+        at = list(range(ln)) if rng.random() < 0.4 else sorted(rng.sample(range(ln), rng.randrange(1, ln + 1)))
+        cases.append({"k": "irregular_bad", "fam": rng.choice(fams), "l": l, "bad": bad, "at": at, "seq": rng.choice(["list", "tuple"])})
+    # regular windows that END exactly at (or within one step of) the family's range limit: all n values fit
+    for _ in range(200 if not big else 3000):
+        fam = rng.choice(fams)
+        lo_td, hi_td, lo_dtm, hi_dtm = ranges(fam)
+        u = UNIT[fam]
+        si = rng.choice([1, 3, u // 3, u, 86400 * u, rng.randrange(1, u)])
+        i, n = rng.choice([0, 1, 3, 10]), rng.choice([0, 1, 2, 5])
+        slack = rng.choice([0, 0, 1, si - 1, si // 2])
+        if rng.random() < 0.5:
+            ts = hi_dtm - (i + max(n, 1) - 1) * si - slack
+            c = {"k": "get", "fam": fam, "mode": 1, "ts": ts, "si": si, "i": i, "n": n}
+        else:
+            ts = lo_dtm + (i + max(n, 1) - 1) * si + slack
+            c = {"k": "get", "fam": fam, "mode": 1, "ts": ts, "si": -si, "i": i, "n": n}
+        cases.append(c)
     return cases
 
 
